@@ -205,6 +205,30 @@ def check_decrypt_site(prog, body, blk, rep, RULE='R03.1'):
     if eq_tgt == ne_tgt:
         rep.ob(RULE, False, key, 'tag comparison does not branch', loc)
         return
+    if body.defpath.startswith('layers::encrypt::'):
+        # a chunk whose tag differs is an *error* of the loader (AuthenticatedDecryptionWrongTag): every result written on a path that leaves by the
+        # unequal outcome is an Err. An Ok there -- "no more data" -- is what the end of the stream looks like: the normal reader would report a
+        # short file as complete, and the repair reader, whose latch is armed by that error only, would go on with the chunks after the bad one
+        rne = body.reachable(ne_tgt)
+        soft = []
+        for b in body.blocks:
+            if b.idx not in rne or b.cleanup or body.edge_dominates(eq_edge, b.idx):
+                continue
+            for i, st in enumerate(b.stmts):
+                if st.kind != 'assign' or st.place != (0, ()):
+                    continue
+                cands = [(b.idx, i, st)]
+                if st.rv.r == 'use' and st.rv.ops[0].place is not None and not st.rv.ops[0].place[1]:
+                    cands = [(d[0], d[1], d[3]) for d in body.defs.get(st.rv.ops[0].place[0], []) if d[2] == 'assign' and d[0] in rne and not body.edge_dominates(eq_edge, d[0])]
+                for (cbb, ci, cst) in cands:
+                    if cst.rv.r == 'aggregate' and cst.rv.j.get('variant') == 'Err':
+                        continue
+                    if cst.rv.r == 'aggregate' and cst.rv.j.get('variant') == 'Ok':
+                        soft.append(body.loc(cbb, ci))
+        rep.ob(RULE, not soft, RULE + '|%s|tag-mismatch-is-an-error' % fn, 'every result written after the unequal outcome of the tag comparison is an Err' if not soft else
+               'after the tag comparison failed the loader returns Ok (%s): a chunk that does not authenticate is reported like the end of the data, not as '
+               'AuthenticatedDecryptionWrongTag -- the reader delivers a short file as complete and repair (whose stop latch is armed by that error) resumes with the '
+               'chunks after the failing one' % ', '.join(soft), body.loc(sbb))
     # exposures: stores through a deref / into _0 / passing to calls, of values flowing from the owners, after decrypt
     flow = forward_locals(body, owners)
     exposures = []
@@ -283,8 +307,20 @@ def end_of_data_rule(prog, rep, RULE='R03.8'):
             subs.append((bl.idx, t.cmethod, t.args[0]))
     rel = []
     for (bb, how, minuend) in subs:
-        o = origins(body, [minuend.place[0]], through_calls=False)      # arithmetic on the remainder only (sums, casts, copies)
-        rs = [r for r in rems if r in o.locals]
+        # arithmetic on the remainder only (sums, casts, copies), and min / max, whose result is one of their operands
+        locs = set()
+        todo = [minuend.place[0]]
+        while todo:
+            o = origins(body, todo, through_calls=False)
+            todo = []
+            for l in o.locals:
+                if l in locs:
+                    continue
+                locs.add(l)
+                for (dbb, dsi, dk, dobj) in body.defs.get(l, []):
+                    if dk == 'call' and dobj.cmethod in ('min', 'max') and (cnorm(dobj).startswith('std::cmp::') or dobj.ctrait == 'std::cmp::Ord'):
+                        todo += [a.place[0] for a in dobj.args if a.place is not None]
+        rs = [r for r in rems if r in locs]
         if rs:
             rel.append((bb, how, minuend, rs))
     if not rems or not rel:
@@ -338,6 +374,68 @@ def end_of_data_rule(prog, rep, RULE='R03.8'):
     rep.ob(RULE, not bad, key0 + 'last-full-chunk-length', 'TAG_LENGTH is removed from the in-chunk remainder only where that remainder is not 0' if not bad else
            'seek(End): TAG_LENGTH is subtracted from a length computed from `inner_len %% CHUNK_TAG_SIZE` without excluding a remainder of 0 (%s): for a stream whose last '
            'chunk is full the computed end is 16 bytes short, the footer length is read at the wrong place and an unaltered archive fails to open' % ', '.join(bad), bs[0].loc())
+
+
+FRESH_GENERATORS = ('from_os_rng', 'from_entropy', 'try_from_os_rng', 'thread_rng', 'rng', 'os_rng')
+DRAWS = ('random', 'fill_bytes', 'fill', 'try_fill_bytes', 'r#gen', 'gen')
+
+
+def fresh_key_material(prog, rep, RULE='R03.9'):
+    """A chunk of another archive is refused only because the (key, nonce prefix) pair of every archive is its own: wherever mla builds an
+    EncryptionConfig, `key` and `nonce` are drawn from a generator which that very call seeded from the operating system -- never from a seed
+    that is kept, derived or shared (from_seed / seed_from_u64 / a static), which would give two archives of one process the same pair."""
+    n = 0
+    for body in prog.crates['mla'].bodies:
+        for b in body.blocks:
+            if b.cleanup:
+                continue
+            for s in b.stmts:
+                if s.kind != 'assign' or s.rv.r != 'aggregate' or s.rv.j.get('agg') != 'adt' or strip_generics(str(s.rv.j.get('adt', ''))) != 'layers::encrypt::EncryptionConfig':
+                    continue
+                n += 1
+                rep.fn(body)
+                fl = s.rv.j.get('fields') or []
+                for fname in ('key', 'nonce'):
+                    key = '%s|%s|%s-drawn-from-os-seeded-generator' % (RULE, body.nkey, fname)
+                    if fname not in fl or fl.index(fname) >= len(s.rv.ops):
+                        rep.ob(RULE, False, key, 'construction of EncryptionConfig whose `%s` cannot be read' % fname, body.loc(b.idx))
+                        continue
+                    op = s.rv.ops[fl.index(fname)]
+                    draws = []
+
+                    def is_draw(k, ob, bb, draws=draws):
+                        t = ob if k == 'call' else (ob[0] if k == 'mutarg' else None)
+                        if t is not None and t.cmethod in DRAWS and (t.ctrait.startswith('rand') or 'Rng' in t.ctrait):
+                            draws.append(t)
+                            return True
+                        # `let mut x = [0; N]; generator.fill_bytes(&mut x)`: the initial value is overwritten before the construction
+                        if k == 'assign' and ob.kind == 'assign' and ob.rv is not None and ob.rv.r == 'repeat' and not ob.place[1]:
+                            fills = [m for m in mutarg_defs(body).get(ob.place[0], []) if m[1].cmethod in ('fill_bytes', 'fill', 'try_fill_bytes')]
+                            return any(body.dominates(m[0], b.idx) and body.dominates(bb, m[0]) for m in fills)
+                        return False
+                    why = []
+                    ok = op.place is not None and must_derive(body, op.place[0], is_draw, why=why) and bool(draws)
+                    msg = ''
+                    if not ok:
+                        msg = '`%s` of a new EncryptionConfig is not (only) the output of a random generator (%s)' % (fname, '; '.join(why[:2]) or 'constant')
+                    for t in draws if ok else []:
+                        g = t.args[0] if t.args else None
+
+                        def is_fresh(k, ob, bb):
+                            if k == 'call':
+                                return ob.cmethod in FRESH_GENERATORS and ('Rng' in ob.ctrait or 'rand' in cnorm(ob))
+                            if k == 'mutarg':      # drawing from the generator advances it: still the same generator
+                                return ob[0].cmethod in DRAWS
+                            if k == 'assign' and ob.rv is not None and ob.rv.r == 'aggregate':
+                                return str(ob.rv.j.get('adt', '')).endswith('OsRng')
+                            return False
+                        why2 = []
+                        if g is None or g.place is None or not must_derive(body, g.place[0], is_fresh, why=why2):
+                            ok = False
+                            msg = ('the generator `%s` is drawn from is not seeded from the operating system in this call (%s): a seed that is kept or shared gives '
+                                   'several archives the same key and nonce prefix, and a chunk of one then authenticates in the other' % (fname, '; '.join(why2[:2]) or 'not a local'))
+                    rep.ob(RULE, ok, key, '`%s` = draw from a generator seeded by the OS in this call' % fname if ok else msg, body.loc(b.idx))
+    rep.floor(RULE, n, 1, 'constructions of EncryptionConfig in mla')
 
 
 def run(prog, rep, tier):
@@ -455,6 +553,9 @@ def run(prog, rep, tier):
 
     # ---------------- R03.8 the end of the plaintext stream is computed right for a stream whose last chunk is full
     end_of_data_rule(prog, rep, 'R03.8')
+
+    # ---------------- R03.9 every archive has its own key and nonce prefix (what makes a chunk of another archive fail authentication)
+    fresh_key_material(prog, rep, 'R03.9')
 
     # ---------------- R03.7 "unaltered archives always open": an intact chunk is read completely before its tag is checked
     from .c13 import chunk_loads_complete
